@@ -562,6 +562,16 @@ func init() {
 						// every request travels through babble's real NetworkTransport
 						cfg.Wire = true
 					}
+					if !cfg.Synthetic && r.Bool(0.4) {
+						// blocks and frames travel too: joiners and lagging nodes
+						// fast-forward from several honest peers with different anchors
+						cfg.FastSyncLate = true
+						cfg.PReFF = 0.05
+						cfg.PJoin = 0.02
+						cfg.MaxJoins = 2
+						cfg.PSilence = 0.04
+						cfg.Steps += 80
+					}
 				}
 				return cfg
 			},
